@@ -159,8 +159,16 @@ Short == [short |-> TRUE]
 IsShort(r) == "short" \in DOMAIN r
 Ok(v, p) == [v |-> v, p |-> p]
 
-Avail(S, p, n) == S.inf \/ p + n <= Len(S.bits)
-BitAt(S, i) == IF i < Len(S.bits) THEN S.bits[i + 1] ELSE 0       \* 0-based
+\* a stream is either [bits |-> bit sequence, inf] or, for long immutable
+\* images, [bytes |-> byte sequence, e |-> endianness, inf] read in place
+\* through the layout contract (BitSeqs!StreamOfBytes), without copying
+SLen(S) == IF "bits" \in DOMAIN S THEN Len(S.bits) ELSE 8 * Len(S.bytes)
+RawBit(S, i) ==                                             \* 0-based, i < SLen(S)
+    IF "bits" \in DOMAIN S THEN S.bits[i + 1]
+    ELSE LET v == S.bytes[i \div 8 + 1]  k == i % 8
+         IN  IF S.e = "be" THEN ByteBits[v][k + 1] ELSE ByteBits[v][8 - k]
+Avail(S, p, n) == S.inf \/ p + n <= SLen(S)
+BitAt(S, i) == IF i < SLen(S) THEN RawBit(S, i) ELSE 0       \* 0-based
 Slice(S, p, n) == [i \in 1..n |-> BitAt(S, p + i - 1)]
 
 \* n-bit field at p
@@ -171,8 +179,8 @@ DecField(E, S, p, n) ==
 \* of a finite stream.  On an infinite stream with an all-zero tail the search
 \* does not terminate in the library either; callers never ask.
 RECURSIVE FirstOnePos(_, _)
-FirstOnePos(S, p) == IF p >= Len(S.bits) THEN -1
-                     ELSE IF S.bits[p + 1] = 1 THEN p ELSE FirstOnePos(S, p + 1)
+FirstOnePos(S, p) == IF p >= SLen(S) THEN -1
+                     ELSE IF RawBit(S, p) = 1 THEN p ELSE FirstOnePos(S, p + 1)
 DecUnary(S, p) == LET q == FirstOnePos(S, p)
                   IN  IF q < 0 THEN Short ELSE Ok(FromInt(q - p), q + 1)
 
@@ -285,4 +293,5 @@ InDomain(c, n) ==
 
 Finite(s) == [bits |-> s, inf |-> FALSE]
 Infinite(s) == [bits |-> s, inf |-> TRUE]
+ByteStreamOf(E, bytes, inf) == [bytes |-> bytes, e |-> E, inf |-> inf]
 =============================================================================
